@@ -24,8 +24,8 @@ var (
 		" 2020-01-01T00:00:00Z", "2020-01-01T00:00:00+00:00\n", "\t2019-12-31T23:00:00-01:00 ", "2020-01-01T00:00:00Z "}
 	dateNums  = []float64{0, 1577836800000, 1577836800500, 1577833200000, -62135596800000, 253402300799000, 253402300799999, 1.5, -1, 9.3e18}
 	verStrs   = []string{"1.0.0", "1.0", "1", "2.0.0", "1.0.0-rc.1", "1.0.0-rc.2", "1.0.0-rc.10", "1.0.0-alpha", "1.0.0+build", "1.2.3-a.b+c.d", "01.0.0", "1.0.0-", "1..0", "v1.0.0", "1.0.0-rc..1", "10.0.0", "1.10.0", "1.2.3.4", " 1.0.0", "1.0.0 ", "1.0.0\n", "+1.0.0"}
-	regexStrs = []string{"^a", "b$", "a.*c", ".", "", "(", "[a-", "^(a|b)+$", "\\d+", "ключ", "k/1"}
-	plainStrs = []string{"", "a", "b", "abc", "ab", "bc", "1", "1.0", "true", "user", "org", "multi", "kind", "ключ", "x y",
+	regexStrs = []string{"^a", "b$", "a.*c", ".", "", "(", "[a-", "^(a|b)+$", "\\d+", "ключ", "k/1", "^ab$", "\\Aab\\z", "^a\\.b$", "^[a]$", "ab", "(?i)AB", "a|b"}
+	plainStrs = []string{"", "a", "b", "abc", "ab", "bc", "1", "1.0", "true", "user", "org", "multi", "kind", "ключ", "x y", "xaby", "a.b", "axb",
 		"ctl\x01\x1b\x7f", "q\"uo\\te\n", "tag\U000E0001"}
 	numPool      = []float64{0, 1, -1, 2, 2.5, 0.1, 1e10, 9007199254740992, -9007199254740992, 9223372036854775808, -9223372036854775808, 99, 100, 1e-7, 3}
 	operatorPool = []string{"in", "endsWith", "startsWith", "matches", "contains", "lessThan", "lessThanOrEqual", "greaterThan", "greaterThanOrEqual", "before", "after", "semVerEqual", "semVerLessThan", "semVerGreaterThan"}
@@ -504,6 +504,11 @@ func (g *gen) flag(key string, prereqKeys, segKeys []string) WFlag {
 	}
 	for i, n := 0, r.intn(g.p.MaxRules+1); i < n; i++ {
 		rule := WFlagRule{ID: fmt.Sprintf("r%d", i), VR: g.vr(nVars), Track: r.chance(1, 4), Clauses: []WClause{}}
+		if i > 0 && r.chance(1, 6) {
+			rule.ID = f.Rules[r.intn(i)].ID // rule ids are not required to be unique
+		} else if r.chance(1, 12) {
+			rule.ID = ""
+		}
 		if r.chance(1, 10) {
 			rule.ID = ""
 		}
